@@ -7,6 +7,9 @@ open PlasVerif.Model.Dom
 /-- no node uses the `self`-attribute alias -/
 def NoAlias (h : Heap) : Prop := ∀ n, h.attr n = none
 
+/-- no element holds a fragment under another attribute key (`attributes['title']`) -/
+def NoAttr2 (h : Heap) : Prop := ∀ n, h.attr2 n = none
+
 /-- every child listed by a non-fragment node names that node as parent, and is listed once -/
 def Inv (h : Heap) : Prop :=
   (∀ n c, h.kind n ≠ .frag → c ∈ h.kids n → h.parent c = some n) ∧
@@ -1017,5 +1020,38 @@ theorem eraseIdx_after_block (l items : List Id) (k : Nat) (hk : k < l.length) :
   rw [List.eraseIdx_append_of_length_le (by omega), hlen, Nat.sub_self]
   congr 1
   rw [List.drop_eq_getElem_cons hk]; simp
+
+/-! ### the other attribute-held fragment (`attr2`) is touched by no list operation -/
+
+@[simp] theorem putAt_attr2 (h : Heap) (s : Id) (k : Nat) (c : Id) : (putAt h s k c).attr2 = h.attr2 := rfl
+@[simp] theorem takeAt_attr2 (h : Heap) (s : Id) (j : Nat) (x : Id) : (takeAt h s j x).attr2 = h.attr2 := rfl
+@[simp] theorem setPO_attr2 (h : Heap) (s c : Id) : (setPO h s c).attr2 = h.attr2 := rfl
+
+theorem pop_attr2 {h : Heap} (ha : NoAlias h) (s : Id) (i : Int) : (pop h s i).1.attr2 = h.attr2 := by
+  rcases pop_cases ha s i with he | ⟨j, x, _, _, he⟩ <;> rw [he]; rfl
+theorem removeChild_attr2 {h : Heap} (ha : NoAlias h) (s c : Id) : (removeChild h s c).1.attr2 = h.attr2 := by
+  rcases removeChild_cases ha s c with ⟨_, he⟩ | ⟨_, he⟩ <;> rw [he]; rfl
+theorem appendAll_attr2 (s : Id) (cs : List Id) : ∀ h : Heap, (appendAll h s cs).attr2 = h.attr2 := by
+  induction cs with
+  | nil => intro h; rfl
+  | cons c cs ih => intro h; rw [appendAll_cons, ih]; rfl
+theorem insertAll_attr2 (s : Id) (cs : List Id) : ∀ (h : Heap) (i : Int), (insertAll h s i cs).1.attr2 = h.attr2 := by
+  induction cs with
+  | nil => intro h i; rfl
+  | cons c cs ih => intro h i; rw [insertAll_cons, ih]; rfl
+
+theorem opAppend_argOK_attr2 {h : Heap} (ha : NoAlias h) (s c : Id) (hp : ArgOK h s c) : (opAppend h s c).1.attr2 = h.attr2 := by
+  rcases hp with ⟨hk, _⟩ | hp
+  · rw [opAppend_leaf ha s c hk]; rfl
+  · rw [opAppend_frag_eq ha s c hp]; exact appendAll_attr2 s _ h
+
+theorem extend_any_attr2 (s : Id) (cs : List Id) : ∀ h : Heap, NoAlias h → Inv h → ExtendPre s h cs →
+    (cs.foldl (fun a c => (opAppend a s c).1) h).attr2 = h.attr2 := by
+  induction cs with
+  | nil => intro h _ _ _; rfl
+  | cons c cs ih =>
+    intro h ha hi hp
+    have := opAppend_argOK_inv ha hi s c hp.1
+    rw [List.foldl_cons, ih _ this.1 this.2 hp.2, opAppend_argOK_attr2 ha s c hp.1]
 
 end PlasVerif.Proofs.Dom
